@@ -12,6 +12,7 @@ def labelOf (j : Json) : R Label := do
   match j with
   | .arr #[.str "mutate"] => pure .mutate
   | .arr #[.str "spawn"] => pure .spawn
+  | .arr #[.str "change"] => pure .change
   | .arr #[.str "crash"] => pure .crash
   | .arr #[.str "adv", n] => do pure (.adv (← asNat n))
   | .arr #[.str "fault", n] => do pure (.fault (← asNat n))
@@ -41,6 +42,7 @@ def jnats (l : List Nat) : Json := Json.arr (l.map jnat).toArray
 def stepName (s : Sys) : Label → String
   | .mutate => "mutate"
   | .spawn => "spawn"
+  | .change => "change"
   | .crash => "crash"
   | .adv j => s!"{j}:{pcName (s.jobs j)}"
   | .fault j => s!"{j}:{pcName (s.jobs j)}!"
